@@ -152,7 +152,10 @@ def jobs(tier):
                        mode="E/concolic-window", functions=funcs, sample_every=17))
     # three datagrams: the middle one is the disturbance, first and last are valid notifications
     for mid in range(4):
-        a = [Arg("n", 3, 3)] + dgram_args(0, 0) + dgram_args(1, mid) + dgram_args(2, 0 if quick else None)
+        a = [Arg("n", 3, 3)] + dgram_args(0, 0) + dgram_args(1, mid) + dgram_args(2, 0)
+        if not quick:
+            a[2], a[3] = Arg("a0", 0, 2), Arg("b0", 0, 1)     # (thorough: first notification with 0..2 payload bindings, 2 rotations)
+            a[10], a[11] = Arg("a2", 0, 3), Arg("b2", 0, 1)
         if quick:
             a[2], a[3], a[4] = Arg("a0", 1, 2), Arg("b0", 0, 0), Arg("addr0", 0, 0)
             a[10], a[11] = Arg("a2", 0, 1), Arg("b2", 1, 2)
